@@ -284,7 +284,12 @@ Lemma intp_consumes : consumes intp.
 Proof. apply lift_consumes, integer_len. Qed.
 Lemma cmp_opp_consumes : consumes (lift cmp_op).
 Proof. apply lift_consumes, cmp_op_len. Qed.
-#[global] Hint Resolve fieldp_consumes identp_consumes strp_consumes intp_consumes cmp_opp_consumes : pc.
+Lemma fieldp_noof : noof fieldp. Proof. apply lift_noof. Qed.
+Lemma identp_noof : noof identp. Proof. apply lift_noof. Qed.
+Lemma strp_noof : noof strp. Proof. apply lift_noof. Qed.
+Lemma intp_noof : noof intp. Proof. apply lift_noof. Qed.
+#[global] Hint Resolve fieldp_consumes identp_consumes strp_consumes intp_consumes cmp_opp_consumes
+  fieldp_noof identp_noof strp_noof intp_noof : pc.
 
 Section WithMode.
 Variable fx : bool.
